@@ -296,6 +296,63 @@ def check_completion(res, ws, o, a, mk):
 PROOF_MODULES = {"C05": ["Glas.Props.C05"], "C18": ["Glas.Props.C18"]}
 
 
+def run_dot_completion(res, tier, seed):
+    """after `value.` the fields offered are the accessors of the value's type: the labels every constructor has
+    with the same type (oracle only; record types with 1-3 constructors, shared / partial / differently typed labels,
+    generic parameters, values from parameters, let bindings and across modules)"""
+    import random as _r
+    rng = _r.Random(seed * 31 + 18)
+    labels = ["size", "name", "id", "tag", "item", "next_one"]
+    tys = ["Int", "Float", "String", "Bool", "List(Int)", "a"]
+    batches, plans = [], []
+    for k in range(60 if tier == "quick" else 1500):
+        ncons = rng.randrange(1, 4)
+        generic = rng.random() < 0.4
+        cons = []
+        for c in range(ncons):
+            fs = {}
+            for l in rng.sample(labels, rng.randrange(1, 5)):
+                t = rng.choice(tys if generic else tys[:5])
+                fs[l] = t
+            cons.append(fs)
+        # make sharing likely: copy some fields of the first constructor into the others
+        for fs in cons[1:]:
+            for l, t in cons[0].items():
+                if rng.random() < 0.6:
+                    fs[l] = t if rng.random() < 0.7 else rng.choice(tys[:5])
+        common_fields = sorted(l for l, t in cons[0].items() if all(fs.get(l) == t for fs in cons[1:]))
+        head = "pub type Rec" + ("(a)" if generic else "") + " {\n" + "".join(
+            f"  K{i}(" + ", ".join(([f"{rng.choice(['Int', 'String'])}"] if rng.random() < 0.3 else []) + [f"{l}: {t}" for l, t in fs.items()]) + ")\n"
+            for i, fs in enumerate(cons)) + "}\n"
+        # unlabelled positional fields must come first in Gleam; they are no accessors
+        ann = "Rec(Int)" if generic else "Rec"
+        two = rng.random() < 0.4
+        if two:
+            m1 = head
+            m2 = f"import m1\npub fn use_it(v: m1.{ann}) {{\n  let w = v\n  w.\n}}\n"
+            files = [("/w/p/src/m1.gleam", m1), ("/w/p/src/m2.gleam", m2), ("/w/p/gleam.toml", 'name = "p"\n')]
+            fi, text = 1, m2
+        else:
+            m1 = head + f"pub fn use_it(v: {ann}) {{\n  let w = v\n  w.\n}}\n"
+            files = [("/w/p/src/m1.gleam", m1), ("/w/p/gleam.toml", 'name = "p"\n')]
+            fi, text = 0, m1
+        off = len(text[:text.index("  w.") + 4].encode())
+        class W: pass
+        ws = W(); ws.files = files
+        batches.append((ws, [f"complete\t{fi}\t{off}\t."]))
+        plans.append((files, common_fields, f"complete\t{fi}\t{off}\t."))
+    ans = run_workspaces(batches)
+    res.cov["evaluations"] += len(batches)
+    for (files, want, q), a in zip(plans, ans):
+        line = a[0]
+        if line.startswith("PANIC"):
+            continue
+        got = sorted(it.split("|")[0] for it in line.split(";") if "|Field|" in it) if line not in ("none", "empty") else []
+        if got != want:
+            res.add_violation("C18/dot-completion-fields", f"after `w.` the fields offered are {got}, the accessors of the type are {want}",
+                              {"files": [{"path": p, "text": t} for p, t in files], "query": q, "impl": line[:300], "expected": want})
+
+
 def run(prop, res, tier, seed):
     res.assumptions += [
         "pattern/expression forms that scope.rs treats identically are collapsed in the model (Pat.node, Expr.node)",
@@ -309,6 +366,7 @@ def run(prop, res, tier, seed):
             return
     run_c05(res, tier, seed, want_c18=(prop == "C18"))
     if prop == "C18":
+        run_dot_completion(res, tier, seed)
         # C18 only reports completion findings
         res.violations = [v for v in res.violations if v[0].startswith("C18/")]
     else:
